@@ -174,6 +174,9 @@ def run_pipeline_impl(ds, tag):
     from opfython.stream import loader, parser
     from opfython.core import Subgraph
     os.makedirs(TMP, exist_ok=True)
+    # the same few paths are written again and again with different datasets (a converter output regenerated in
+    # place): every load must reflect the file as it is now
+    tag = "ds%d" % (sum(map(ord, str(tag))) % 2)
     dat = os.path.join(TMP, "%s.dat" % tag)
     write_dat(dat, ds)
     res = {}
@@ -220,6 +223,10 @@ def run_pipeline_impl(ds, tag):
                     xr = [[as_f32_bits(v) for v in row] for row in X]
                     r["X"] = xr
                     r["Y"] = [int(v) for v in Y]
+                    try:
+                        X *= 0.5          # callers may post-process the parsed features in place (X is a view of the loaded data)
+                    except Exception:     # noqa
+                        pass
                     if any(float(v) != int(v) for v in Y):
                         r["parse"] = "labels not integral"
             except e.ValueError:
